@@ -124,8 +124,10 @@ type version struct {
 }
 
 type cand struct { // one admissible explanation of a transaction's pin
-	ver int
-	at  time.Time
+	ver   int
+	at    time.Time
+	ticks int // vacuum ticks / reverts seen when the pin was taken (signature detail only)
+	revs  int
 }
 
 type seqRun struct {
@@ -138,7 +140,6 @@ type seqRun struct {
 	byPtr    map[*config.PoliciesData]int
 	pins     map[int][]cand
 	started  uint64 // vacuum loops started (model: first lookup, first successful update)
-	fires    uint64
 	txnVac   bool
 	polVac   bool
 	loaded   string // tag of the last successfully loaded file (what a revert restores)
@@ -162,11 +163,12 @@ func (s *seqRun) violate(sig, detail string) {
 }
 
 func (s *seqRun) quiesce() bool {
-	if s.clk.WaitArmed(tick, s.started+s.fires, wallGuard) {
+	// every started vacuum loop is parked in clock.Sleep again <=> its iteration is finished
+	if s.clk.WaitPending(func(sim.Waiter) bool { return true }, int(s.started), wallGuard) {
 		return true
 	}
-	s.v.Inconclude(fmt.Sprintf("case %d: vacuum loop did not re-arm within the wall-clock guard (armed %d, expected %d)",
-		s.rp.Case, s.clk.Armed(tick), s.started+s.fires))
+	s.v.Inconclude(fmt.Sprintf("case %d: a vacuum loop did not park again within the wall-clock guard (parked %d, expected %d)",
+		s.rp.Case, len(s.clk.Pending()), s.started))
 	s.v.Count("quiesce_timeouts", 1)
 	s.aborted = true
 	return false
@@ -174,11 +176,8 @@ func (s *seqRun) quiesce() bool {
 
 func (s *seqRun) advance(d time.Duration) {
 	s.clk.Advance(d, func(w sim.Waiter) {
-		if w.D == tick {
-			s.fires++
-			s.ticks++
-			s.quiesce()
-		}
+		s.ticks++
+		s.quiesce()
 	})
 }
 
@@ -216,7 +215,7 @@ func (s *seqRun) touch(t int) {
 				fmt.Sprintf("first lookup of txn t%d returned version #%d (%s) but the newest completed version is #%d (%s)", t, got, s.versions[got].tag, cur, s.versions[cur].tag))
 			return
 		}
-		s.pins[t] = []cand{{got, now}}
+		s.pins[t] = []cand{{got, now, s.ticks, s.nRev}}
 		return
 	}
 	var next []cand
@@ -243,7 +242,7 @@ func (s *seqRun) touch(t int) {
 		}
 		if got == cur {
 			// ... or the pin was given up and the transaction pinned afresh
-			next = append(next, cand{cur, now})
+			next = append(next, cand{cur, now, s.ticks, s.nRev})
 		}
 	}
 	if len(next) == 0 {
@@ -254,7 +253,14 @@ func (s *seqRun) touch(t int) {
 			if got < c.ver {
 				dir = "older"
 			}
-			s.violate(fmt.Sprintf("C11/pin/switched-to-%s-within-retention", dir),
+			how := "after-vacuum-tick"
+			if s.ticks == c.ticks {
+				how = "no-vacuum-tick-since-pin/update-between"
+				if s.nRev > c.revs {
+					how = "no-vacuum-tick-since-pin/revert-between"
+				}
+			}
+			s.violate(fmt.Sprintf("C11/pin/switched-to-%s-within-retention/%s", dir, how),
 				fmt.Sprintf("txn t%d was pinned to version #%d (%s) at %v; %v later (<= %v) its lookup returned version #%d (%s); current #%d",
 					t, c.ver, s.versions[c.ver].tag, c.at.Sub(t0), dt, judgeBelow, got, s.versions[got].tag, cur))
 		} else {
@@ -760,9 +766,9 @@ func main() {
 		exh = append(exh, enumerate(n)...)
 	}
 	nExh := len(exh)
-	nSamp := args.Pick(1200, 24000)
-	nRand := args.Pick(1200, 24000)
-	nConc := args.Pick(48, 512)
+	nSamp := args.Pick(3000, 24000)
+	nRand := args.Pick(3000, 24000)
+	nConc := args.Pick(96, 512)
 	if raceEnabled { // the race detector allows 8128 live goroutines; every case leaves 2 parked vacuum loops
 		nSamp, nRand, nConc = nSamp/4, nRand/4, nConc/2
 		if args.Thorough() {
@@ -801,6 +807,7 @@ func main() {
 			break
 		}
 	}
+	summariseRaceLogs(v, args.Out)
 	v.Exhaustive = false // the enumerated sub-space is complete per run (all batches together), the rest is sampled
 	if v.Counters["judged_pin_differs_from_current"] == 0 {
 		v.Inconclude("no judged lookup of a pinned transaction whose version had been superseded in this batch")
@@ -839,5 +846,47 @@ func runReplay(args sim.Args, v *sim.Verdict, root string) {
 	delete(v.Counters, "dummy")
 	if v.Counters["judged_pin_differs_from_current"] == 0 && v.NumViolations() == 0 {
 		v.Inconclude("replayed case contains no judged lookup of a superseded pin")
+	}
+}
+
+// summariseRaceLogs reads the race detector's report files of this child (if any) and records the
+// pairs of outermost non-runtime functions involved. Evidence only: never a verdict of C11.
+func summariseRaceLogs(v *sim.Verdict, outDir string) {
+	files, _ := filepath.Glob(filepath.Join(outDir, "race.*"))
+	pairs := map[string]int{}
+	total := 0
+	for _, f := range files {
+		data, err := os.ReadFile(f)
+		if err != nil {
+			continue
+		}
+		for _, rep := range strings.Split(string(data), "==================") {
+			if !strings.Contains(rep, "WARNING: DATA RACE") {
+				continue
+			}
+			total++
+			var tops []string
+			lines := strings.Split(rep, "\n")
+			for i, l := range lines {
+				t := strings.TrimSpace(l)
+				if (strings.HasPrefix(t, "Read at") || strings.HasPrefix(t, "Write at") || strings.HasPrefix(t, "Previous read at") || strings.HasPrefix(t, "Previous write at")) && i+2 < len(lines) {
+					fn := strings.TrimSpace(lines[i+1])
+					loc := strings.TrimSpace(lines[i+2])
+					if k := strings.LastIndex(loc, "/"); k >= 0 {
+						loc = loc[k+1:]
+					}
+					if k := strings.Index(loc, " "); k >= 0 {
+						loc = loc[:k]
+					}
+					tops = append(tops, fn+"@"+loc)
+				}
+			}
+			sort.Strings(tops)
+			pairs[strings.Join(tops, " | ")]++
+		}
+	}
+	if total > 0 {
+		v.Count("race_reports", total)
+		v.Extra["race_pairs"] = pairs
 	}
 }
